@@ -212,3 +212,26 @@ mod tests {
         assert_eq!("pkg:type/name", &serialized);
     }
 }
+
+/// Verification hooks: thin public wrappers over private items. No behavior of their own.
+#[cfg(feature = "verif")]
+#[doc(hidden)]
+pub mod verif_format {
+    use super::*;
+
+    /// The escape sets in the order path, path segment, query, fragment.
+    pub const SET_NAMES: [&str; 4] = ["PURL_PATH", "PURL_PATH_SEGMENT", "PURL_QUERY", "PURL_FRAGMENT"];
+
+    pub fn escape_set(id: usize) -> &'static AsciiSet {
+        match id {
+            0 => PURL_PATH,
+            1 => PURL_PATH_SEGMENT,
+            2 => PURL_QUERY,
+            _ => PURL_FRAGMENT,
+        }
+    }
+
+    pub fn encode_with(id: usize, s: &str) -> String {
+        utf8_percent_encode(s, escape_set(id)).to_string()
+    }
+}
